@@ -847,7 +847,7 @@ func (cs *ContractSet) ReadFile(path, pkgName string, external bool) error {
 					return fmt.Errorf("%s: after needs 'pkg.F k assert[tags] expr'", l.pos)
 				}
 				callee := f[0]
-				if !strings.Contains(callee, ".") {
+				if !strings.Contains(callee, ".") && callee != "if" { // `after if k`: the k-th block-level if statement
 					callee = pkgName + "." + callee
 				}
 				i := strings.Index(rest, f[2])
